@@ -78,7 +78,7 @@ def dense_raw(t, x):
     return DenseFunctionalData(DenseArgvals(av), DenseValues(np.asarray(x)))
 
 
-def dtype_monitor(rep, rng, ops, what):
+def dtype_monitor(rep, rng, ops, what, narrow=False):
     """Integer-valued curves and integer grids (counts, days, indices) are legitimate inputs: every operation in `ops`
     (name -> function of a dense dataset) must give, on integer-dtype arrays, what it gives on the same numbers as floats."""
     import warnings
@@ -111,3 +111,27 @@ def dtype_monitor(rep, rng, ops, what):
         if bad:
             rep.violation(f"{what}: {label}: " + "; ".join(bad), {"x": x.tolist(), "X": Xi.tolist(), "case": label})
     del ref_d
+    if not narrow:
+        return
+    # narrow integer storage (8-bit pictures, 16-bit digitised signals) with values near the top of the range: sums of a few
+    # of them do not fit the storage type, the statistics are those of the numbers all the same
+    for dt, lo, hi in ((np.uint8, 180, 256), (np.int8, 90, 128), (np.int16, 20000, 32768)):
+        Xn = rng.integers(lo, hi, size=(n + 2, m)).astype(dt)
+        bad = []
+        for name, fn in ops.items():
+            with warnings.catch_warnings():
+                warnings.simplefilter("ignore")
+                want = np.asarray(fn(dense(xf, Xn.astype(float))), float)
+                try:
+                    got = np.asarray(fn(dense_raw(xf, Xn.copy())), float)
+                except Exception as e:  # noqa: BLE001
+                    bad.append(f"{name} raised {type(e).__name__}: {str(e)[:80]}")
+                    continue
+            if got.shape != want.shape or not np.allclose(got, want, rtol=1e-9, equal_nan=True,
+                                                          atol=1e-9 * max(1.0, float(np.nanmax(np.abs(want), initial=0)))):
+                dev = float(np.max(np.abs(got - want))) if got.shape == want.shape else float("nan")
+                bad.append(f"{name} differs from the result on the same numbers as floats (max {dev:.3g})")
+        label = f"{np.dtype(dt).name} values near the top of the range"
+        rep.case(("dtype", what, label, Xn.tobytes()), kind=f"dtype/{np.dtype(dt).name}")
+        if bad:
+            rep.violation(f"{what}: {label}: " + "; ".join(bad), {"x": xf.tolist(), "X": Xn.tolist(), "dtype": np.dtype(dt).name})
